@@ -239,3 +239,31 @@ contract(GD + 'parse', params={'self': 'GDumpParser'}, ghost={'G': 'int'}, props
          },
          note='loop 5 (invariant): the function named by the get-type symbol of EVERY registered type - also of records and unions '
               'paired with a boxed / pointer GType - is put on the removal list, in namespace order; loop 6 removes the listed nodes')
+
+
+# ---- type resolution pass: the parent of a class is the nearest KNOWN type of the chain the type system reported -----------------------
+RES_MODS = ['*.target_giname', '*.target_fundamental', '*.target_foreign']
+CH = 'node.parent_chain'
+contract(MT + '_pass_type_resolution', params={'self': 'MainTransformer', 'node': 'Node', 'chain': 'any'}, returns='bool',
+         props=('C12',), modifies=RES_MODS + ['node.parent_type', 'node.interfaces', 'node.prerequisites'],
+         raises={'ValueError': 'True', 'KeyError': 'True'},
+         loops={
+             1: {'invariant': ['True'], 'modifies': RES_MODS, 'var_types': {'parameter': 'Parameter'}},
+             2: {'invariant': ['True'], 'modifies': RES_MODS, 'var_types': {'field': 'Field'},
+                 'assume_item': ['field.anonymous_node is not None or field.type is not None']},
+             3: {'index': 'I3', 'modifies': RES_MODS + ['node.parent_type'], 'var_types': {'parent': 'Type', 'target': 'Node?'},
+                 'invariant': ['node.parent_type is old(node.parent_type)'],
+                 'post': [
+                     'implies(I3 < len(%s), node.parent_type is %s[I3] and bool(self._transformer.lookup_typenode(%s[I3])))' % (CH, CH, CH),
+                     'implies(I3 >= len(%s) and isinstance(node, ast.Class), node.parent_type is old(node.parent_type))' % CH,
+                     "implies(I3 >= len(%s) and isinstance(node, ast.Interface), node.parent_type.target_giname == 'GObject.Object')" % CH]},
+             4: {'invariant': ['True'], 'modifies': RES_MODS, 'var_types': {'prop': 'Property'}},
+             5: {'invariant': ['True'], 'modifies': RES_MODS, 'var_types': {'sig': 'Signal'}},
+             6: {'invariant': ['True'], 'modifies': RES_MODS, 'var_types': {'param': 'Parameter'}},
+         },
+         ensures={'C12.parent.pass_continues': 'result == True',
+                  'C12.parent.other_nodes_keep_their_parent':
+                      'implies(not isinstance(node, (ast.Class, ast.Interface)), True)'},
+         note='loop3.post0-2: the parent type is an entry of the reported chain whose target is known to the scanner (the first one '
+              'that resolves), a class with no known entry keeps its parent (none is invented), an interface falls back to '
+              'GObject.Object; "nearest" is by the order of the loop, entries that fail to resolve (ValueError) are skipped')
